@@ -149,3 +149,81 @@ Example C13_example_result :
    1; 0; 0; 5; 2; 0; 1; 2; 1; 1; 3; 3; 1; 1; 1; 2; 0; 1; 3; 2; 5; 6; 5; 0; 1; 3; 0; 1; 0; 1; 1; 1]%Z.
 Proof. vm_compute. reflexivity. Qed.
 Print Assumptions C13_example_result.
+
+(* ---- the deletion loops, literally (SGE/DelEquiv.v) ------------------------------------------- *)
+(* Model.v writes `for z in sorted(Z, reverse=True): del x[z]` as the position filter `del_idx Z x`.
+   del_at z l            `del l[z]` (totalised: out of range = no change; del_at_chk returns None = IndexError)
+   del_loop S l          `for z in S: del l[z]`, one deletion at a time on the shrinking list
+   sort_desc Z           `sorted(Z, reverse=True)`
+   del_sorted_loop Z l   = del_loop (sort_desc Z) l *)
+From Coq Require Import Sorted Permutation.
+From PTN Require Import SGE.DelEquiv.
+
+(* for duplicate-free Z the literal descending loop deletes exactly the positions in Z *)
+Theorem C13_descending_del_is_filter : forall (A : Type) (Z : list nat) (l : list A),
+  NoDup Z -> del_loop (sort_desc Z) l = del_idx Z l.
+Proof. exact descending_del_is_filter. Qed.
+Print Assumptions C13_descending_del_is_filter.
+
+(* ... independently of the sorting algorithm: any non-increasing arrangement S of Z *)
+Theorem C13_descending_del_is_filter_any_sort : forall (A : Type) (Z S : list nat) (l : list A),
+  NoDup Z -> Permutation S Z -> StronglySorted ge S ->
+  fold_left (fun acc z => del_at z acc) S l = del_idx Z l.
+Proof. exact descending_del_is_filter_gen. Qed.
+Print Assumptions C13_descending_del_is_filter_any_sort.
+
+(* ... and no `del` raises IndexError when the indices are in range of the original list *)
+Theorem C13_descending_del_no_index_error : forall (A : Type) (Z : list nat) (l : list A),
+  NoDup Z -> (forall z, In z Z -> z < length l) ->
+  del_loop_chk (sort_desc Z) l = Some (del_idx Z l).
+Proof. exact descending_del_no_index_error. Qed.
+Print Assumptions C13_descending_del_no_index_error.
+
+(* the two-container form of the code: `for z in S: del X[z]; for row in Y: del row[z]` *)
+Theorem C13_descending_del_lines_is_filter : forall (A B : Type) (Z : list nat) (X : list A) (Y : list (list B)),
+  NoDup Z ->
+  fold_left (fun st z => (del_at z (fst st), map (del_at z) (snd st))) (sort_desc Z) (X, Y)
+  = (del_idx Z X, map (del_idx Z) Y).
+Proof. exact del_lines_is_filter. Qed.
+Print Assumptions C13_descending_del_lines_is_filter.
+
+(* with duplicates the idealisation would be wrong: the filter ignores a repeated index, the loop
+   deletes once per occurrence (a second element, or IndexError) *)
+Theorem C13_del_with_duplicates : forall (A : Type) (Z : list nat) (l : list A),
+  del_idx Z l = del_loop (sort_desc (nodup Nat.eq_dec Z)) l.
+Proof. exact del_idx_is_loop_on_nodup. Qed.
+Print Assumptions C13_del_with_duplicates.
+
+Theorem C13_del_duplicate_index : forall (A : Type) (z : nat) (l : list A), S z < length l ->
+  del_loop [z; z] l = del_idx [z; S z] l /\ del_idx [z; z] l = del_idx [z] l.
+Proof. exact dup_two. Qed.
+Print Assumptions C13_del_duplicate_index.
+
+Example C13_del_duplicates_differ :
+  del_loop (sort_desc [1; 1]) [10; 20; 30] = [10] /\ del_idx [1; 1] [10; 20; 30] = [10; 30] /\
+  del_loop_chk (sort_desc [2; 2]) [10; 20; 30] = None.
+Proof. vm_compute. auto. Qed.
+Print Assumptions C13_del_duplicates_differ.
+
+(* every index list the algorithm hands to a deletion loop is duplicate-free and in range:
+   zero_rows/zero_cols of deparallelize_rows/_cols (any operator L/R, any matrix M) and of one pass
+   of the inner while loop of row_elimination/column_elimination (any pivot, any state) *)
+Theorem C13_reachable_Z_duplicate_free :
+  (forall L M, let Z := snd (depar_rows_outer M (seq 0 (length M)) L []) in
+               NoDup Z /\ forall z, In z Z -> z < length M) /\
+  (forall R M, let Z := snd (depar_cols_outer M (seq 0 (ncols M)) R []) in
+               NoDup Z /\ forall z, In z Z -> z < ncols M) /\
+  (forall pivot i M L, let Z := snd (fold_left (row_elim_target pivot i) (seq 0 (length M)) (M, L, [])) in
+               NoDup Z /\ forall z, In z Z -> z < length M) /\
+  (forall pivot j M R, let Z := snd (fold_left (col_elim_target pivot j) (seq 0 (ncols M)) (M, R, [])) in
+               NoDup Z /\ forall z, In z Z -> z < ncols M).
+Proof.
+  exact (conj deparallelize_rows_Z_ok (conj deparallelize_cols_Z_ok (conj row_elim_Z_ok col_elim_Z_ok))).
+Qed.
+Print Assumptions C13_reachable_Z_duplicate_free.
+
+(* hence the algorithm written with the literal loops at all four reachable deletion sites is the model *)
+Theorem C13_literal_loops_eq_model : forall M : mat,
+  gaussian_elimination_lit M = gaussian_elimination M.
+Proof. exact gaussian_elimination_lit_eq. Qed.
+Print Assumptions C13_literal_loops_eq_model.
